@@ -110,6 +110,7 @@ def natOps : StrOps Nat where
   truthy := fun n => n != 1
   empty := 1
   unspecified := Gen.AttrMaps.nameFormatUnspecified
+  defaultFormat := Gen.AttrMaps.nameFormatUri
   eptidOid := Gen.AttrMaps.eptidOid
   eptidLocal := Gen.AttrMaps.eptidLocal
   persistent := Gen.AttrMaps.nameIdFormatPersistent
@@ -118,5 +119,9 @@ def natOps : StrOps Nat where
 
 /-- The converters `ac_factory()` builds from the bundled maps. -/
 def bundledConvs : List (Conv Nat) := acFactory natOps Gen.AttrMaps.attrMaps
+
+/-- One entry per bundled map (`none`: the dictionary is not an attribute map). -/
+def bundledConvOf : List (Option (Conv Nat)) :=
+  Gen.AttrMaps.attrMaps.map fun m => if isMap m then fromDict natOps m else none
 
 end AttrCode
